@@ -380,7 +380,7 @@ func (p Parameters) LogMaxSlots() int {
 
 // DepthCoeffsToSlots returns the depth of the Coeffs to Slots of the bootstrapping.
 func (p Parameters) DepthCoeffsToSlots() (depth int) {
-	return p.SlotsToCoeffsParameters.Depth(true)
+	return p.CoeffsToSlotsParameters.Depth(true)
 }
 
 // DepthEvalMod returns the depth of the EvalMod step of the bootstrapping.
@@ -390,7 +390,7 @@ func (p Parameters) DepthEvalMod() (depth int) {
 
 // DepthSlotsToCoeffs returns the depth of the Slots to Coeffs step of the bootstrapping.
 func (p Parameters) DepthSlotsToCoeffs() (depth int) {
-	return p.CoeffsToSlotsParameters.Depth(true)
+	return p.SlotsToCoeffsParameters.Depth(true)
 }
 
 // Depth returns the depth of the full bootstrapping circuit.
